@@ -17,6 +17,7 @@ from .. import anf
 from .common import struct_ob, formula_ob, guard, last_return, U
 from . import mcmc
 from ..report import AnalysisError
+from ..term import Resolver, pmatch
 
 HMC = "inference/mcmc/hmc/__init__.py"
 MASS = "inference/mcmc/hmc/mass.py"
@@ -320,10 +321,12 @@ def _positive_multiple(expr, h):
                 return True, ""
             if isinstance(f, ast.IfExp):
                 t = f.test
-                if isinstance(t, ast.Compare) and isinstance(t.ops[0], ast.NotEq) and U(t.comparators[0]) in ("0.0", "0"):
+                # canonical polarity (sa/canon.py):  <positive literal> if x == 0 else abs(x)
+                if isinstance(t, ast.Compare) and isinstance(t.ops[0], (ast.NotEq, ast.Eq)) and U(t.comparators[0]) in ("0.0", "0"):
                     x = U(t.left)
-                    body_ok = U(f.body) == f"abs({x})"
-                    else_ok = isinstance(f.orelse, ast.Constant) and isinstance(f.orelse.value, (int, float)) and f.orelse.value > 0
+                    nz, z = (f.body, f.orelse) if isinstance(t.ops[0], ast.NotEq) else (f.orelse, f.body)
+                    body_ok = U(nz) in (f"abs({x})", f"fabs({x})", f"absolute({x})")
+                    else_ok = isinstance(z, ast.Constant) and isinstance(z.value, (int, float)) and z.value > 0
                     if body_ok and else_ok:
                         return True, ""
                 return False, "conditional factor is not `abs(x) if x != 0 else <positive literal>`"
@@ -347,7 +350,8 @@ def _force(prog, ci, c, fd):
                              slots={"slot_occupants": occupants, "external_allowed": ext}))
     # the slot is bound as `self.finite_diff if grad is None else grad`
     sites = prog.self_assignments(ci, "grad")
-    ok = len(sites) == 1 and U(sites[0][3]) == "self.finite_diff if grad is None else grad"
+    ok = len(sites) == 1 and any(pmatch(sites[0][3], pt) is not None for pt in
+                                 ("self.finite_diff if grad is None else grad", "grad if grad is not None else self.finite_diff"))
     out.append(struct_ob("force-is-potential-gradient", f"{ci.module.name}.HamiltonianChain.__init__[grad-slot]", ok,
                          f"grad slot binding is `{U(sites[0][3]) if sites else None}`", HMC,
                          sites[0][2].lineno if sites else ci.node.lineno))
